@@ -177,7 +177,14 @@ impl ObjectReceiver {
         self.push_to_block2(pkt, now)?;
         if pkt.lct.close_object {
             if self.state == State::Receiving {
-                self.error("No more packet for this object", now, true);
+                let waiting_for_fdt = self.object_writer.is_none()
+                    && self.nb_blocks > 0
+                    && self.nb_block_completed() as u64 == self.nb_blocks;
+                if !waiting_for_fdt {
+                    self.error("No more packet for this object", now, true);
+                }
+                // else every source block is decoded (OTI received in-band), nothing
+                // is missing but the FDT: the blocks are written when it is attached
             }
         }
         Ok(())
